@@ -10,6 +10,8 @@ from .. import e4 as e4mod
 from ..repo import AnalysisError, dotted
 from .c04 import fold
 
+from . import shared
+
 LEVEL = "other"
 EXPLANATION = (
     "Decides completeness of the sweep: classification is exhaustive (every "
@@ -30,6 +32,8 @@ FIVE = ("nameplate_sides", "nameplates", "messages", "mailbox_sides", "mailboxes
 
 def run(ctx):
     model = ctx.model
+    shared.r_durable(ctx, "R13.durable", ("chan",),
+                     "what the sweep deleted is still in the database file (another connection, a restart)")
     ctx.rule("R13.timer", "TimerService(constant period, f) is parented to the returned "
              "service; f wraps the sweep in try/except Exception without re-raise")
     if not model.timer_info():
